@@ -88,6 +88,12 @@ CHECKS["C18"] = dict(level="exploration", engine="E4-domain",
    note="Decides the observable statements of the property (no plaintext bytes, authenticated, deterministic, legacy readable), not cryptographic strength. Lengths above the bound and multi-bit corruptions are not enumerated.",
    ref="§5 C18")
 
+CHECKS["C04"] = dict(level="fault_enumeration", engine="E3-crash-cuts",
+   technique="exhaustive enumeration of every down-closed subset (crash cut) of the recorded mutation log of a transaction / merging open / refresh / vacuum, each crash state recovered by the real code under every permutation of the heads",
+   text="14 scenarios (empty table, one version, two and three unmerged heads, single- and multi-level trees, histories with deleted rows; transaction = autocommit INSERT, multi-statement BEGIN..COMMIT, merging read-write open, s3db_refresh that merges, writer based on neither head, s3db_vacuum with three cutoffs). The transaction runs once against a recording handle; every down-closed subset of its mutation log under the partial order the code imposes (concurrent node PUTs, vacuum's DELETE sets and the retire chains of different parents unordered, everything else in program order; up to 1027 cuts per scenario) is applied to the pre-state and recovered: read-only opens under every permutation of the heads must succeed, agree, and show exactly the rows before or exactly the rows after (after, if the transaction was acknowledged); a read-write recovery must agree, accept a write, and be readable afterwards; thorough cuts the recovery's own commits again (second crash).",
+   note="Trusted: S3 semantics (atomic objects, an in-flight request landed or not); groups larger than 12 unordered requests are covered by prefixes, single omissions and singletons (monotonicity argument in engine/crash.go) and reported as exhaustive:false.",
+   ref="§5 C04")
+
 NOT_YET = {}
 
 props = [json.loads(l) for l in open("properties.jsonl")]
